@@ -512,7 +512,8 @@ func c03MaxMask(c *Ctx) {
 	}
 	var lookup ssa.CallInstruction
 	for _, ci := range callInstrs(fn) {
-		if sf := ci.Common().StaticCallee(); sf != nil && sf.Name() == "FindNext" && loop.Body[ci.Block()] {
+		// the exact get of the candidate subnet: FindNext (after FindStart) or Find on the cdb handle
+		if sf := ci.Common().StaticCallee(); sf != nil && (sf.Name() == "FindNext" || sf.Name() == "Find") && loop.Body[ci.Block()] {
 			lookup = ci
 		}
 	}
